@@ -338,17 +338,24 @@ def run_escape(desc):
     return check_text(text, classes=(f'escape-{desc["form"]}',))
 
 
+import fuzzpart  # noqa: E402
+
 PARTS = [
     Part('grammar', run_text, strategy=strat_grammar,
-         examples={'quick': 24000, 'thorough': 400000},
+         examples={'quick': 16000, 'thorough': 400000},
          budget={'quick': 40, 'thorough': 400}),
     Part('mutations', run_text, strategy=strat_mutations,
-         examples={'quick': 16000, 'thorough': 300000},
+         examples={'quick': 12000, 'thorough': 300000},
          budget={'quick': 40, 'thorough': 400}),
     Part('tokens', run_tokens, enumerate=enum_tokens, exhaustive=True,
          budget={'quick': 120, 'thorough': 900}),
     Part('escapes', run_escape, enumerate=enum_escapes, exhaustive=True,
          budget={'quick': 120, 'thorough': 900}),
+    # coverage-guided supplement (atheris/libFuzzer), oracle in the target
+    Part('atheris', fuzzpart.run_campaign('c09', check_text),
+         enumerate=fuzzpart.enum_campaigns({'quick': 30000,
+                                            'thorough': 3000000}),
+         budget={'quick': 60, 'thorough': 900}),
 ]
 
 LEVEL_TEXT = ('Generated and bounded-exhaustive search against a three-valued '
